@@ -314,3 +314,99 @@ func (u *Universe) NilGuardEdges(fn *ssa.Function, v ssa.Value, nonNil bool) []E
 	}
 	return out
 }
+
+// NormalReturns lists the Return instructions of fn except the one in the
+// recover block (which only re-reads named results after a recovered panic).
+func NormalReturns(fn *ssa.Function) []*ssa.Return {
+	var out []*ssa.Return
+	for _, b := range fn.Blocks {
+		if b == fn.Recover {
+			continue
+		}
+		for _, in := range b.Instrs {
+			if r, ok := in.(*ssa.Return); ok {
+				out = append(out, r)
+			}
+		}
+	}
+	return out
+}
+
+// ReturnResult gives the value returned as result idx by ret. In functions
+// with defers go/ssa spills results to locals (*t0 = v; rundefers; t = *t0;
+// return t): the spilled value is looked up in the return's block.
+func ReturnResult(ret *ssa.Return, idx int) ssa.Value {
+	if idx >= len(ret.Results) {
+		return nil
+	}
+	v := ret.Results[idx]
+	ld, ok := v.(*ssa.UnOp)
+	if !ok || ld.Op != token.MUL {
+		return v
+	}
+	a, ok := ld.X.(*ssa.Alloc)
+	if !ok {
+		return v
+	}
+	b := ret.Block()
+	var last ssa.Value
+	for _, in := range b.Instrs {
+		if in == ssa.Instruction(ld) {
+			break
+		}
+		if st, ok := in.(*ssa.Store); ok && st.Addr == ssa.Value(a) {
+			last = st.Val
+		}
+	}
+	if last != nil {
+		return last
+	}
+	return v
+}
+
+// EmptyTest decodes `len(v) == 0`, `len(v) != 0`, `len(v) > 0`, `len(v) < 1`,
+// `0 < len(v)`, `len(v) >= 1` conditions. emptySucc is the successor taken
+// when v is empty.
+func EmptyTest(iff *ssa.If) (v ssa.Value, emptySucc int, ok bool) {
+	b, isBin := iff.Cond.(*ssa.BinOp)
+	if !isBin {
+		return nil, 0, false
+	}
+	lenOf := func(x ssa.Value) ssa.Value {
+		if c, ok := x.(*ssa.Call); ok && BuiltinName(c) == "len" {
+			return c.Call.Args[0]
+		}
+		return nil
+	}
+	op := b.Op
+	x, y := b.X, b.Y
+	if lenOf(x) == nil && lenOf(y) != nil {
+		// mirror: c OP len(v)  ==  len(v) OP' c
+		x, y = y, x
+		switch op {
+		case token.LSS:
+			op = token.GTR
+		case token.GTR:
+			op = token.LSS
+		case token.LEQ:
+			op = token.GEQ
+		case token.GEQ:
+			op = token.LEQ
+		}
+	}
+	v = lenOf(x)
+	if v == nil {
+		return nil, 0, false
+	}
+	c, isConst := ConstInt(y)
+	if !isConst {
+		return nil, 0, false
+	}
+	switch {
+	case op == token.EQL && c == 0, op == token.LSS && c == 1, op == token.LEQ && c == 0:
+		return v, 0, true
+	case op == token.NEQ && c == 0, op == token.GTR && c == 0, op == token.GEQ && c == 1:
+		return v, 1, true
+	}
+	return nil, 0, false
+}
